@@ -236,7 +236,29 @@ func c04Publication(c *Ctx, m *Module, pfx string) {
 							continue
 						}
 						for k, succ := range b.Succs {
-							if wl.blocks[succ] || !(succ == linkCAS.Block() || blockReaches(succ, linkCAS.Block())) {
+							if wl.blocks[succ] {
+								continue
+							}
+							// does this exit lead to another link attempt? (followed with the values that
+							// flow out of the loop: an exit that reports "record invalid" or "found" through
+							// result variables goes on to a return)
+							if walkWithout([]walkState{{b, succ, 0}}, func(x ssa.Instruction) bool { return x == ssa.Instruction(linkCAS) }, func(ssa.Instruction) bool { return false }) == nil {
+								continue
+							}
+							// the exits for "record invalid" and "name found" are the subject of the
+							// corruption and name-match rules (what is returned there is checked by them)
+							isEntryResult := func(v ssa.Value, idx int) bool {
+								v = strip(v)
+								if cv, ok := v.(*ssa.Convert); ok {
+									v = strip(cv.X)
+								}
+								e, ok := v.(*ssa.Extract)
+								return ok && e.Tuple == ssa.Value(walkEntry) && e.Index == idx
+							}
+							if isEntryResult(ifi.Cond, 3) {
+								continue
+							}
+							if cb, ok := ifi.Cond.(*ssa.BinOp); ok && cb.Op == token.EQL && k == 0 && (isEntryResult(cb.X, 0) || isEntryResult(cb.Y, 0)) {
 								continue
 							}
 							// an exit of the walk that leads back to a link attempt
